@@ -345,7 +345,7 @@ func runC04(e *sim.Env) {
 
 func init() {
 	register(&Prop{
-		ID: "C04", Run: runC04, Flavour: "instrumented", Quick: 900, Thorough: 25000, Level: "exploration",
+		ID: "C04", Run: runC04, Race: true, Flavour: "instrumented", Quick: 900, Thorough: 25000, Level: "exploration",
 		Rule:        "one run = C02-style history with 1-6 subscribers that start from nothing or from a snapshot of any index a subscriber reached before (including indices on branches that are stale by now), poll UpdatesSince with chunk sizes 1-8 at drawn moments between submissions and fold the returned diffs and proof updates into a shadow ledger; every poll is checked for the chunk bound and for contiguity (reverts walk back block by block off the best chain, applies walk forward on it); whenever a subscriber has caught up its shadow ledger must equal the reference ledger (elements, leaf indices, proofs, chain index elements) and verify against the accumulator; in the lock-yield flavour 1 submission in 3 runs concurrently with up to 3 UpdatesSince calls under the seeded lock-level scheduler (no error, chunk bound, contiguity, path ends on the best chain before or after the submission; the folded ledger is compared as usual once the subscriber has caught up); two OnReorg listeners (one calling back into the manager, one cancelled at a drawn moment) must be called exactly when the tip changed; distinct = abstract trace; non-trivial = a reorg that reverts blocks",
 		Real:        []string{"chain.Manager (UpdatesSince, OnReorg)", "chain.DBStore"},
 		Stub:        []string{"disk: simdisk.DB"},
